@@ -75,6 +75,9 @@ def check(ctx, pid=PID, props=PROPS, only_nofault=False):
         return 1
     r = ctx.rng("faults")
     base = fc.base_cases(ctx, ctx.seed, ctx.tier)
+    if ctx.tier == "thorough":      # more histories: further seeds of the base generator (duplicates dropped)
+        for s in range(1, 12):
+            base += [b for b in fc.base_cases(ctx, ctx.seed * 1000 + s, ctx.tier) if b not in base]
     t0 = time.time()
     nofault = fc.run(ctx, [fc.case_line(c, "@N", a) for c, a in base])
     nofault_of = {(c, a): l for (c, a), l in zip(base, nofault)}
